@@ -77,7 +77,7 @@ type Client struct {
 	ProgressEvery int
 	// FailHeightOnce makes GetBlockHash fail once when asked for this height (0: off).
 	FailHeightOnce int64
-	counts  map[string]int
+	counts         map[string]int
 }
 
 // NewClient creates a session on the chain and starts its pump.
@@ -447,26 +447,27 @@ func (cl *Client) BlockStamp() (*waddrmgr.BlockStamp, error) {
 	return &waddrmgr.BlockStamp{Height: t.Height, Hash: t.Hash, Timestamp: t.Time()}, nil
 }
 
-// SendRawTransaction implements chain.Interface with a programmable answer.
+// SendRawTransaction implements chain.Interface with a programmable answer;
+// without one the model node decides (Chain.Offer).
 func (cl *Client) SendRawTransaction(tx *wire.MsgTx, allowHighFees bool) (*chainhash.Hash, error) {
 	h := tx.TxHash()
 	var err error
 	if cl.SendAnswer != nil {
-		err = cl.SendAnswer(tx)
-	} else if cl.C.InMempool(h) {
-		// what a node answers to a transaction it already holds
-		err = chain.ErrTxAlreadyInMempool
+		// The wallet re-offers its unconfirmed transactions from a goroutine
+		// of its own, so an offer may arrive for a transaction the model has
+		// confirmed meanwhile; Offer leaves such a transaction alone (it must
+		// never sit in the mempool and in a block at once).
+		if err = cl.SendAnswer(tx); err == nil {
+			if oerr := cl.C.Offer(tx); oerr != nil && !errors.Is(oerr, chain.ErrTxAlreadyInMempool) {
+				err = oerr
+			}
+		}
+	} else {
+		err = cl.C.Offer(tx)
 	}
 	cl.logCall("SendRawTransaction", h, err)
 	if err != nil {
 		return nil, err
-	}
-	// The wallet re-offers its unconfirmed transactions from a goroutine of
-	// its own, so an offer may arrive for a transaction the model has
-	// confirmed meanwhile: that is a no-op for the model (it must never sit
-	// in the mempool and in a block at once).
-	if cl.C.ConfirmedIn(h) == nil {
-		cl.C.AddToMempool(tx)
 	}
 	return &h, nil
 }
